@@ -188,3 +188,57 @@ Section EscTree.
     destruct v; try reflexivity; congruence.
   Qed.
 End EscTree.
+
+(* ---- escaping is monotone for the byte order, so a sorted map stays sorted ---- *)
+Lemma ascii_compare_refl c : Ascii.compare c c = Eq.
+Proof. unfold Ascii.compare. apply N.compare_refl. Qed.
+
+Lemma escape_compare : forall a b, String.compare (escape a) (escape b) = String.compare a b.
+Proof.
+  induction a as [|x a IH]; intro b.
+  - destruct b as [|y b]; [reflexivity|]. cbn [escape]. destruct (Ascii.eqb y "$"%char); reflexivity.
+  - destruct b as [|y b].
+    + cbn [escape]. destruct (Ascii.eqb x "$"%char); reflexivity.
+    + cbn [escape]. destruct (Ascii.eqb x "$"%char) eqn:Ex; destruct (Ascii.eqb y "$"%char) eqn:Ey.
+      * apply Ascii.eqb_eq in Ex, Ey. subst. cbn [String.compare]. rewrite !ascii_compare_refl. apply IH.
+      * apply Ascii.eqb_eq in Ex. subst x. cbn [String.compare].
+        destruct (Ascii.compare "$" y) eqn:C; try reflexivity.
+        apply Ascii.compare_eq_iff in C. subst y. discriminate Ey.
+      * apply Ascii.eqb_eq in Ey. subst y. cbn [String.compare].
+        destruct (Ascii.compare x "$") eqn:C; try reflexivity.
+        apply Ascii.compare_eq_iff in C. subst x. discriminate Ex.
+      * cbn [String.compare]. destruct (Ascii.compare x y); try reflexivity. apply IH.
+Qed.
+
+Lemma escape_ltb a b : String.ltb (escape a) (escape b) = String.ltb a b.
+Proof. unfold String.ltb. now rewrite escape_compare. Qed.
+
+Lemma esc_map_ssorted m : ssorted m -> ssorted (esc_map m).
+Proof.
+  induction m as [|[k x] r IH]; [exact id|]. cbn [ssorted esc_map]. intros [Hlt Hs]. split; [|now apply IH].
+  clear -Hlt. induction r as [|[k' x'] r' IHr]; [constructor|]. inversion Hlt; subst. cbn [esc_map].
+  constructor; [cbn [fst] in *; now rewrite escape_ltb|now apply IHr].
+Qed.
+
+(* maps strictly sorted, hereditarily *)
+Fixpoint swf (v : value) : Prop :=
+  match v with
+  | VList l => (fix go (l : list value) := match l with [] => True | x :: r => swf x /\ go r end) l
+  | VMap m => ssorted m /\ (fix go (m : emap) := match m with [] => True | (_, x) :: r => swf x /\ go r end) m
+  | _ => True
+  end.
+
+Lemma swf_sorted_both v : swf v -> sorted_both v.
+Proof.
+  induction v as [| | |g|s|l IH|m IH] using value_ind'; intro H; try exact Logic.I.
+  - rewrite sorted_both_VList. cbn [swf] in H. induction IH as [|x r Hx _ IHr]; [exact Logic.I|].
+    destruct H as [H1 H2]. cbn [sb_list]. split; [now apply Hx|now apply IHr].
+  - rewrite sorted_both_VMap. cbn [swf] in H. destruct H as [Hs H]. split; [exact Hs|]. split; [now apply esc_map_ssorted|].
+    clear Hs. induction IH as [|[k x] r Hx _ IHr]; [exact Logic.I|]. cbn [snd] in Hx. destruct H as [H1 H2].
+    cbn [sb_map]. split; [now apply Hx|now apply IHr].
+Qed.
+
+(* the escape theorem with the only hypothesis that the data is a well-formed tree of bounded depth *)
+Theorem eval_escaped_swf o v : swf v -> height v <= depth_limit ->
+  eval_docs o [esc v] = Ok (match v with VNull => [] | _ => [dn v] end).
+Proof. intros H Hh. apply eval_escaped; [now apply swf_sorted_both|exact Hh]. Qed.
